@@ -10,6 +10,7 @@ import (
 	"runtime"
 	"slices"
 	"strings"
+	"sync"
 
 	"golang.org/x/tools/go/ssa"
 )
@@ -34,6 +35,7 @@ type interpreter struct {
 	initPkgs           map[string]bool
 	depth              int
 	cur                *frame
+	regPool            map[*funcInfo][][]value
 }
 
 // stack returns the innermost interpreted frames (for diagnostics).
@@ -57,7 +59,8 @@ type frame struct {
 	caller           *frame
 	fn               *ssa.Function
 	block, prevBlock *ssa.BasicBlock
-	env              map[ssa.Value]value
+	fi               *funcInfo
+	regs             []value
 	locals           []value
 	defers           *deferred
 	result           value
@@ -84,10 +87,60 @@ func (fr *frame) get(key ssa.Value) value {
 	case *ssa.Global:
 		return fr.i.global(key)
 	}
-	if r, ok := fr.env[key]; ok {
-		return r
+	if ix, ok := fr.fi.idx[key]; ok {
+		if r := fr.regs[ix]; r != nil || true {
+			return r
+		}
 	}
 	panic(fmt.Sprintf("get: no value for %T: %v", key, key.Name()))
+}
+
+func (fr *frame) set(key ssa.Value, v value) {
+	fr.regs[fr.fi.idx[key]] = v
+}
+
+// funcInfo assigns a register index to every SSA value of a function (computed once).
+type funcInfo struct {
+	idx  map[ssa.Value]int
+	n    int
+	name string // fn.String() (of the generic origin for instantiations)
+	self string // fn.String()
+}
+
+var funcInfos sync.Map
+
+func infoOf(fn *ssa.Function) *funcInfo {
+	if fi, ok := funcInfos.Load(fn); ok {
+		return fi.(*funcInfo)
+	}
+	fi := &funcInfo{idx: map[ssa.Value]int{}, name: fn.String(), self: fn.String()}
+	if fn.Origin() != nil {
+		fi.name = fn.Origin().String()
+	}
+	add := func(v ssa.Value) {
+		if _, ok := fi.idx[v]; !ok {
+			fi.idx[v] = fi.n
+			fi.n++
+		}
+	}
+	for _, p := range fn.Params {
+		add(p)
+	}
+	for _, fv := range fn.FreeVars {
+		add(fv)
+	}
+	for _, l := range fn.Locals {
+		add(l)
+	}
+	for _, b := range fn.Blocks {
+		for _, ins := range b.Instrs {
+			if v, ok := ins.(ssa.Value); ok {
+				add(v)
+			}
+		}
+	}
+	actual, _ := funcInfos.LoadOrStore(fn, fi)
+	return actual.(*funcInfo)
 }
 
 func (i *interpreter) global(g *ssa.Global) *value {
@@ -125,8 +178,19 @@ func (fr *frame) runDefers() {
 	}
 }
 
+type methKey struct {
+	t types.Type
+	m *types.Func
+}
+
 func lookupMethod(i *interpreter, typ types.Type, meth *types.Func) *ssa.Function {
-	return i.prog.LookupMethod(typ, meth.Pkg(), meth.Name())
+	k := methKey{typ, meth}
+	if f, ok := i.run.methCache[k]; ok {
+		return f
+	}
+	f := i.prog.LookupMethod(typ, meth.Pkg(), meth.Name())
+	i.run.methCache[k] = f
+	return f
 }
 
 func (fr *frame) pos(instr ssa.Instruction) string {
@@ -145,9 +209,9 @@ func visitInstr(fr *frame, instr ssa.Instruction) continuation {
 
 	case *ssa.UnOp:
 		if instr.Op == token.MUL {
-			fr.env[instr] = run.loadAddr(fr, instr, mustDeref(instr.X.Type()), fr.get(instr.X))
+			fr.regs[fr.fi.idx[instr]] = run.loadAddr(fr, instr, mustDeref(instr.X.Type()), fr.get(instr.X))
 		} else {
-			fr.env[instr] = unop(instr, fr.get(instr.X))
+			fr.regs[fr.fi.idx[instr]] = unop(instr, fr.get(instr.X))
 		}
 
 	case *ssa.BinOp:
@@ -155,36 +219,36 @@ func visitInstr(fr *frame, instr ssa.Instruction) continuation {
 		if instr.Op == token.QUO || instr.Op == token.REM {
 			run.checkDivisor(fr, instr, y)
 		}
-		fr.env[instr] = binop(instr.Op, instr.X.Type(), x, y)
+		fr.regs[fr.fi.idx[instr]] = binop(instr.Op, instr.X.Type(), x, y)
 
 	case *ssa.Call:
 		fn, args := prepareCall(fr, &instr.Call)
-		fr.env[instr] = call(fr.i, fr, instr.Pos(), fn, args)
+		fr.regs[fr.fi.idx[instr]] = call(fr.i, fr, instr.Pos(), fn, args)
 
 	case *ssa.ChangeInterface:
-		fr.env[instr] = fr.get(instr.X)
+		fr.regs[fr.fi.idx[instr]] = fr.get(instr.X)
 
 	case *ssa.ChangeType:
-		fr.env[instr] = fr.get(instr.X)
+		fr.regs[fr.fi.idx[instr]] = fr.get(instr.X)
 
 	case *ssa.Convert:
-		fr.env[instr] = run.conv(fr, instr, instr.Type(), instr.X.Type(), fr.get(instr.X))
+		fr.regs[fr.fi.idx[instr]] = run.conv(fr, instr, instr.Type(), instr.X.Type(), fr.get(instr.X))
 
 	case *ssa.SliceToArrayPointer:
-		fr.env[instr] = sliceToArrayPointer(instr.Type(), instr.X.Type(), fr.get(instr.X))
+		fr.regs[fr.fi.idx[instr]] = sliceToArrayPointer(instr.Type(), instr.X.Type(), fr.get(instr.X))
 
 	case *ssa.MakeInterface:
-		fr.env[instr] = iface{t: instr.X.Type(), v: fr.get(instr.X)}
+		fr.regs[fr.fi.idx[instr]] = iface{t: instr.X.Type(), v: fr.get(instr.X)}
 
 	case *ssa.Extract:
-		fr.env[instr] = fr.get(instr.Tuple).(tuple)[instr.Index]
+		fr.regs[fr.fi.idx[instr]] = fr.get(instr.Tuple).(tuple)[instr.Index]
 
 	case *ssa.Slice:
 		x := fr.get(instr.X)
 		lo := run.concretizeOpt(fr, instr, fr.get(instr.Low))
 		hi := run.concretizeOpt(fr, instr, fr.get(instr.High))
 		mx := run.concretizeOpt(fr, instr, fr.get(instr.Max))
-		fr.env[instr] = slice(x, lo, hi, mx)
+		fr.regs[fr.fi.idx[instr]] = slice(x, lo, hi, mx)
 
 	case *ssa.Return:
 		switch len(instr.Results) {
@@ -254,9 +318,9 @@ func visitInstr(fr *frame, instr ssa.Instruction) continuation {
 		var addr *value
 		if instr.Heap {
 			addr = new(value)
-			fr.env[instr] = addr
+			fr.regs[fr.fi.idx[instr]] = addr
 		} else {
-			addr = fr.env[instr].(*value)
+			addr = fr.regs[fr.fi.idx[instr]].(*value)
 		}
 		*addr = zero(mustDeref(instr.Type()))
 
@@ -274,16 +338,16 @@ func visitInstr(fr *frame, instr ssa.Instruction) continuation {
 		for i := range slice {
 			slice[i] = zero(tElt)
 		}
-		fr.env[instr] = slice[:ln]
+		fr.regs[fr.fi.idx[instr]] = slice[:ln]
 
 	case *ssa.MakeMap:
-		fr.env[instr] = makeMap(instr.Type().Underlying().(*types.Map).Key(), 0)
+		fr.regs[fr.fi.idx[instr]] = makeMap(instr.Type().Underlying().(*types.Map).Key(), 0)
 
 	case *ssa.Range:
-		fr.env[instr] = rangeIter(run, fr.get(instr.X))
+		fr.regs[fr.fi.idx[instr]] = rangeIter(run, fr.get(instr.X))
 
 	case *ssa.Next:
-		fr.env[instr] = fr.get(instr.Iter).(iter).next()
+		fr.regs[fr.fi.idx[instr]] = fr.get(instr.Iter).(iter).next()
 
 	case *ssa.FieldAddr:
 		switch x := fr.get(instr.X).(type) {
@@ -291,19 +355,19 @@ func visitInstr(fr *frame, instr ssa.Instruction) continuation {
 			if x == nil {
 				panic(targetPanic{"invalid memory address or nil pointer dereference", fr.pos(instr)})
 			}
-			fr.env[instr] = &(*x).(structure)[instr.Field]
+			fr.regs[fr.fi.idx[instr]] = &(*x).(structure)[instr.Field]
 		case *symPtr:
 			np := &symPtr{idx: x.idx}
 			for _, c := range x.cands {
 				np.cands = append(np.cands, &(*c).(structure)[instr.Field])
 			}
-			fr.env[instr] = np
+			fr.regs[fr.fi.idx[instr]] = np
 		default:
 			panic(fmt.Sprintf("FieldAddr on %T", x))
 		}
 
 	case *ssa.Field:
-		fr.env[instr] = fr.get(instr.X).(structure)[instr.Field]
+		fr.regs[fr.fi.idx[instr]] = fr.get(instr.X).(structure)[instr.Field]
 
 	case *ssa.IndexAddr:
 		x := fr.get(instr.X)
@@ -321,20 +385,20 @@ func visitInstr(fr *frame, instr ssa.Instruction) continuation {
 			panic(fmt.Sprintf("unexpected x type in IndexAddr: %T", x))
 		}
 		if si, ok := idx.(symInt); ok {
-			fr.env[instr] = run.symIndexAddr(fr, instr, elems, si)
+			fr.regs[fr.fi.idx[instr]] = run.symIndexAddr(fr, instr, elems, si)
 		} else {
 			i := asInt64(idx)
 			if i < 0 || i >= int64(len(elems)) {
 				panic(targetPanic{fmt.Sprintf("index out of range [%d] with length %d", i, len(elems)), fr.pos(instr)})
 			}
-			fr.env[instr] = &elems[i]
+			fr.regs[fr.fi.idx[instr]] = &elems[i]
 		}
 
 	case *ssa.Index:
 		x := fr.get(instr.X)
 		idx := fr.get(instr.Index)
 		if si, ok := idx.(symInt); ok {
-			fr.env[instr] = run.symIndex(fr, instr, x, si)
+			fr.regs[fr.fi.idx[instr]] = run.symIndex(fr, instr, x, si)
 			break
 		}
 		i := asInt64(idx)
@@ -343,23 +407,23 @@ func visitInstr(fr *frame, instr ssa.Instruction) continuation {
 			if i < 0 || i >= int64(len(x)) {
 				panic(targetPanic{fmt.Sprintf("index out of range [%d] with length %d", i, len(x)), fr.pos(instr)})
 			}
-			fr.env[instr] = x[i]
+			fr.regs[fr.fi.idx[instr]] = x[i]
 		case string:
 			if i < 0 || i >= int64(len(x)) {
 				panic(targetPanic{fmt.Sprintf("index out of range [%d] with length %d", i, len(x)), fr.pos(instr)})
 			}
-			fr.env[instr] = x[i]
+			fr.regs[fr.fi.idx[instr]] = x[i]
 		case *symStr:
 			if i < 0 || i >= int64(len(x.b)) {
 				panic(targetPanic{fmt.Sprintf("index out of range [%d] with length %d", i, len(x.b)), fr.pos(instr)})
 			}
-			fr.env[instr] = x.b[i]
+			fr.regs[fr.fi.idx[instr]] = x.b[i]
 		default:
 			panic(fmt.Sprintf("unexpected x type in Index: %T", x))
 		}
 
 	case *ssa.Lookup:
-		fr.env[instr] = run.lookup(fr, instr, fr.get(instr.X), fr.get(instr.Index))
+		fr.regs[fr.fi.idx[instr]] = run.lookup(fr, instr, fr.get(instr.X), fr.get(instr.Index))
 
 	case *ssa.MapUpdate:
 		m := fr.get(instr.Map)
@@ -381,14 +445,14 @@ func visitInstr(fr *frame, instr ssa.Instruction) continuation {
 		}
 
 	case *ssa.TypeAssert:
-		fr.env[instr] = typeAssert(fr, instr, fr.get(instr.X).(iface))
+		fr.regs[fr.fi.idx[instr]] = typeAssert(fr, instr, fr.get(instr.X).(iface))
 
 	case *ssa.MakeClosure:
 		var bindings []value
 		for _, binding := range instr.Bindings {
 			bindings = append(bindings, fr.get(binding))
 		}
-		fr.env[instr] = &closure{instr.Fn.(*ssa.Function), bindings}
+		fr.regs[fr.fi.idx[instr]] = &closure{instr.Fn.(*ssa.Function), bindings}
 
 	case *ssa.Phi:
 		panic("unreachable: phi")
@@ -441,11 +505,9 @@ func call(i *interpreter, caller *frame, callpos token.Pos, fn value, args []val
 
 func callSSA(i *interpreter, caller *frame, callpos token.Pos, fn *ssa.Function, args []value, env []value) value {
 	fr := &frame{i: i, caller: caller, fn: fn}
+	fr.fi = infoOf(fn)
 	if fn.Parent() == nil {
-		name := fn.String()
-		if fn.Origin() != nil {
-			name = fn.Origin().String()
-		}
+		name := fr.fi.name
 		if ext := i.run.intrinsic(name, fn); ext != nil {
 			return ext(fr, args)
 		}
@@ -483,18 +545,30 @@ func callSSA(i *interpreter, caller *frame, callpos token.Pos, fn *ssa.Function,
 	i.cur = fr
 	defer func() { i.depth-- }()
 
-	fr.env = make(map[ssa.Value]value)
+	if fr.fi.n > 64 {
+		// big register files (coded tables such as advanceDFA) are recycled without clearing:
+		// SSA guarantees every register is written before it is read
+		if pl := i.regPool[fr.fi]; len(pl) > 0 {
+			fr.regs = pl[len(pl)-1]
+			i.regPool[fr.fi] = pl[:len(pl)-1]
+		} else {
+			fr.regs = make([]value, fr.fi.n)
+		}
+		defer func() { i.regPool[fr.fi] = append(i.regPool[fr.fi], fr.regs) }()
+	} else {
+		fr.regs = make([]value, fr.fi.n)
+	}
 	fr.block = fn.Blocks[0]
 	fr.locals = make([]value, len(fn.Locals))
 	for i, l := range fn.Locals {
 		fr.locals[i] = zero(mustDeref(l.Type()))
-		fr.env[l] = &fr.locals[i]
+		fr.set(l, &fr.locals[i])
 	}
 	for i, p := range fn.Params {
-		fr.env[p] = args[i]
+		fr.set(p, args[i])
 	}
 	for i, fv := range fn.FreeVars {
-		fr.env[fv] = env[i]
+		fr.set(fv, env[i])
 	}
 	for fr.block != nil {
 		runFrame(fr)
@@ -550,7 +624,7 @@ func executePhis(fr *frame) []ssa.Instruction {
 			fr.phitemps = append(fr.phitemps, fr.get(phi.Edges[predIndex]))
 		}
 		for i, phi := range phis {
-			fr.env[phi.(*ssa.Phi)] = fr.phitemps[i]
+			fr.set(phi.(*ssa.Phi), fr.phitemps[i])
 		}
 	}
 	return nonPhis
